@@ -257,4 +257,32 @@ theorem c07s_timer_short_piece (T A rest : List Tok) (cs : CharSpec) (e : Ext) (
     exact c07p_timerTail_cur ..
   · simp [c07s_headEvs_nil W hW]
 
+/-- the events of a single-word timer `~name` planted in the block `T` after `tpre`, its actual tokens being `tB`
+    (spelling `~` and the specified name tokens `WS`) -/
+def c07s_timerShortSpec (cs : CharSpec) (e : Ext) (WS : List Tok) (T tpre tB : List Tok) (evs : List (Ev α)) : Prop :=
+  ∃ (tm : Tok) (W : List Tok), tB = tm :: W ∧ Spells W WS ∧
+    evs = c07w_noteEvs T (tpre.length + tB.length) ++
+      c07w_timerFinishEvs (offAt T (tpre.length + 1)) ⟨W, none, none⟩ (buildText (offAt T (tpre.length + 1)) W) cs e ++
+      [.timer ⟨⟨if (buildText (offAt T (tpre.length + 1)) W).isTextEmpty cs then none
+          else some (buildText (offAt T (tpre.length + 1)) W),
+        c07w_timerFinishQty (buildText (offAt T (tpre.length + 1)) W) cs e⟩,
+        ⟨offAt T tpre.length, offAt T (tpre.length + tB.length)⟩⟩]
+
+/-- the single-word timer given by SPECIFICATION tokens: a piece on every actual block spelling them -/
+theorem c07s_timer_short_pieceAt (cs : CharSpec) (e : Ext) (tmS : Tok) (WS restS : List Tok) (hk : tmS.kind = .tilde)
+    (hW : ∀ t ∈ WS, wordKind t.kind = true) (hne : WS ≠ [])
+    (hR : ∀ t, restS.head? = some t → wordKind t.kind = false) (hnb : noBraceFirst restS = true)
+    (T tpre tB tpost : List Tok) (hT : T = tpre ++ (tB ++ tpost)) (hsB : Spells tB (tmS :: WS))
+    (hpost : Spells tpost restS) (hrun : RunAt (baseOff T) T) :
+    PlPieceAt (α := α) T cs e tpre ⟨tB, c07s_timerShortSpec cs e WS T tpre tB⟩ := by
+  obtain ⟨tm, W, rfl, k1, -, k2⟩ := hsB.cons_inv
+  have hw : WF T := ⟨by rw [hT]; simp, hrun⟩
+  have hne' : W ≠ [] := by
+    intro h; apply hne; have := k2.length; rw [h] at this; exact List.eq_nil_of_length_eq_zero this.symm
+  exact (c07s_timer_short_piece (α := α) T tpre tpost cs e tm W hT hw (k1.trans hk)
+    (c07d_kind_of_spells k2 (fun k => wordKind k = true) hW) hne'
+    (c07s_head_pred hpost.head_kind (fun k => wordKind k = false) hR)
+    (by rw [noBraceFirst_kinds tpost restS hpost.kinds]; exact hnb)).mono
+    (fun evs he => ⟨tm, W, rfl, k2, he⟩)
+
 end Cook
